@@ -1,6 +1,7 @@
 package demo
 
 import (
+	"strings"
 	"testing"
 
 	"github.com/AdguardTeam/urlfilter"
@@ -313,6 +314,32 @@ func TestF26(t *testing.T) {
 		hr, ok := r.(*rules.HostRule)
 		if err != nil || !ok || len(hr.Hostnames) != 1 || hr.Hostnames[0] != "example.org" {
 			t.Errorf("%q: rule %T, err %v", line, r, err)
+		}
+	}
+}
+
+// F27 (C18): a '$$' or '$@$' inside the comment of a hosts line was taken for the marker of an
+// HTML-filtering rule: the line was rejected as a broken cosmetic rule and its names were lost.
+func TestF27(t *testing.T) {
+	for _, line := range []string{"0.0.0.0 example.org # a$$b", "0.0.0.0 example.org #a$@$b", "0.0.0.0 example.org#a$$b", "example.org # costs 5$$"} {
+		r, err := rules.NewRule(line, 1)
+		hr, ok := r.(*rules.HostRule)
+		if err != nil || !ok || len(hr.Hostnames) != 1 || hr.Hostnames[0] != "example.org" {
+			t.Errorf("%q: rule %T, err %v", line, r, err)
+		}
+	}
+	// real HTML-filtering and element-hiding rules are still recognised
+	for _, line := range []string{"example.org##.banner", "##.banner", "example.org#@#.banner"} {
+		r, err := rules.NewRule(line, 1)
+		if _, ok := r.(*rules.CosmeticRule); err != nil || !ok {
+			t.Errorf("%q: rule %T, err %v", line, r, err)
+		}
+	}
+	// (HTML-filtering rules are recognised and rejected as unsupported, as before)
+	for _, line := range []string{`example.org$$script[data-src="a#b"]`, `example.org$@$script[data-src="a #b"]`, `$$script[tag-content="#x"]`} {
+		_, err := rules.NewRule(line, 1)
+		if err == nil || !strings.Contains(err.Error(), "unsupported") {
+			t.Errorf("%q: err %v", line, err)
 		}
 	}
 }
